@@ -12,7 +12,9 @@ package main
 // events:  L <hex of the server line> | Z (connection closed) | A <move> <start ply> <ctx cancelled> | G
 //          LA <hex> <move> <start ply> <ctx cancelled>   the thinker's answer landed in its channel WHILE the loop was
 //                                                        handling that line (before the branch's moveCancel())
+// The hex is the RAW text the loop received (game id canonicalised): the model classifies it itself (BotLine.classify).
 // observation per event:  <sends, blanks as _, comma separated>^<0|1|P|S>^<#positions>^<moves>^<top position>
+//                         ^<chat callbacks made: T:<who>:<msg> / C:<room>:<who>:<msg>, hex, comma separated, or ->^<g.times.mine>:<g.times.theirs> (ns)
 //
 // Because the 500 ms grace timer is real, a schedule whose trace fails the oracle or disagrees with
 // the extracted model (build/modelrun, if present) is re-run three times before it counts.
@@ -38,6 +40,9 @@ func init() { register("C07", runC07) }
 type c07Event struct {
 	Ev     string   `json:"ev"`
 	Line   string   `json:"line"`
+	Hex    string   `json:"hex"`
+	Chat   []string `json:"chat"`
+	Times  [2]int64 `json:"times"`
 	Move   string   `json:"move"`
 	Ply    int      `json:"ply"`
 	TPS    string   `json:"tps"`
@@ -410,10 +415,14 @@ func c07Case(s *c07Sched, t *c07Trace) (input, l1 string) {
 		case "Z":
 			in = append(in, "Z")
 		default:
+			h := e.Hex // (JSON cannot carry invalid UTF-8: the driver also writes the line in hex)
+			if h == "" {
+				h = hex.EncodeToString([]byte(e.Line))
+			}
 			if e.During != nil {
-				in = append(in, fmt.Sprintf("LA %s- %s %d %d", hex.EncodeToString([]byte(e.Line)), e.During.Move, e.During.Ply, b2i(e.During.Cancel)))
+				in = append(in, fmt.Sprintf("LA %s- %s %d %d", h, e.During.Move, e.During.Ply, b2i(e.During.Cancel)))
 			} else {
-				in = append(in, "L "+hex.EncodeToString([]byte(e.Line))+"-")
+				in = append(in, "L "+h+"-")
 			}
 		}
 		if e.Moves != nil {
@@ -431,7 +440,11 @@ func c07Case(s *c07Sched, t *c07Trace) (input, l1 string) {
 		if m == "" {
 			m = "-"
 		}
-		out = append(out, fmt.Sprintf("%s^%s^%d^%s^%s", strings.Join(sends, ","), e.Ret, len(pos), m, top))
+		chat := "-"
+		if len(e.Chat) > 0 {
+			chat = strings.Join(e.Chat, ",")
+		}
+		out = append(out, fmt.Sprintf("%s^%s^%d^%s^%s^%s^%d:%d", strings.Join(sends, ","), e.Ret, len(pos), m, top, chat, e.Times[0], e.Times[1]))
 	}
 	all := make([]string, len(pos))
 	for i, p := range pos {
@@ -609,16 +622,56 @@ func c07Directed() []*c07Sched {
 	add("observer", 4, "O", true, false, "A:0 L:0 L:1 L:2 L:3 G A:0 C:0 L:1 Q")
 	add("observer", 3, "O", false, true, "L:0 G L:1 L:2 T L:3 U G L:0 Z")
 	add("observer", 3, "O", true, false, "L:0 L:0 L:0 L:0 L:0 L:0 L:0 L:0 L:0 L:0 L:0 G A:0 O")
-	// hostile lines: outside the property, compared with the model only
-	for i := 0; i < 9; i++ {
-		add("hostile", 3, "W", true, false, "A:0 L:0", "H:"+strconv.Itoa(i), "G A:0")
+	// near misses of our own lines, chat mentioning our game, the corner cases of the three chat patterns (all ignored by the
+	// loop; the chat callbacks and their arguments are compared with the model), odd spellings of the clock fields
+	for _, col := range []string{"W", "B"} {
+		lo := c07NChatOld
+		if col == "B" {
+			lo += 2
+		}
+		for part := 0; part < 4; part++ {
+			var ops []string
+			game := strings.Fields("A:0 L:0 G A:1 L:1 T:1 A:0 U X A:2 L:0 G A:0 L:2 T A:1")
+			for i := lo + part; i < c07NChat; i += 4 {
+				ops = append(ops, "C:"+strconv.Itoa(i))
+				if len(game) > 0 {
+					ops, game = append(ops, game[0]), game[1:]
+				}
+			}
+			add("nearmiss", 3, col, true, false, ops...)
+		}
+		add("clock", 3, col, true, false, "T:1 A:0 T:2 L:0 T:3 G T:4 T:5 A:1 L:1 T:6 A:0 T:7 L:0 T:8 T:9 G T:10 T:11 T:12 A:0 T:13 T:14 T:15")
 	}
+	add("clock", 4, "O", true, false, "T:4 L:0 T:5 L:1 T:9 G T:12 T:13 L:0 T:3 T:2")
+	// hostile lines (index panics, P/M texts ParseServer rejects, protocol words behind "Tell", which the loop executes):
+	// outside the property, compared with the model only
+	for i := 0; i < c07NHostile; i++ {
+		col := "W"
+		if i >= 9 && i%2 == 1 {
+			col = "B"
+		}
+		if col == "W" {
+			add("hostile", 3, col, true, false, "A:0 L:0", "H:"+strconv.Itoa(i), "G A:0")
+		} else {
+			add("hostile", 3, col, true, false, "L:0 T A:0", "H:"+strconv.Itoa(i), "G A:0 L:0")
+		}
+	}
+	add("hostile", 3, "O", true, false, "L:0 H:9")
+	add("hostile", 3, "O", false, false, "L:0 L:1 H:31 H:1")
 	add("hostile", 3, "B", true, false, "XX")
 	add("hostile", 3, "W", true, false, "A:0 XX A:0 XX A:0")
 	add("hostile", 3, "B", true, false, "L:0 LI")
 	add("hostile", 4, "W", true, false, "LI")
 	return out
 }
+
+// sizes of the driver's line tables vcChat / vcHostile / vcTimes (harness/overlay/bot_sched_test.go.txt)
+const (
+	c07NChatOld = 28
+	c07NChat    = 76
+	c07NHostile = 38
+	c07NTimes   = 16
+)
 
 func c07Random(c *ctx, n int) []*c07Sched {
 	var out []*c07Sched
@@ -652,14 +705,16 @@ func c07Random(c *ctx, n int) []*c07Sched {
 				s.ops = append(s.ops, "AB")
 			case x < 70:
 				s.ops = append(s.ops, "G")
-			case x < 77:
+			case x < 75:
 				s.ops = append(s.ops, "T")
+			case x < 77:
+				s.ops = append(s.ops, "T:"+strconv.Itoa(c.r.Intn(c07NTimes)))
 			case x < 85:
 				s.ops = append(s.ops, "U")
 			case x < 92:
 				s.ops = append(s.ops, "X")
 			case x < 97:
-				s.ops = append(s.ops, "C:"+strconv.Itoa(c.r.Intn(28)))
+				s.ops = append(s.ops, "C:"+strconv.Itoa(c.r.Intn(c07NChat)))
 			case x < 98:
 				s.ops = append(s.ops, "O")
 			case x < 99:
